@@ -642,11 +642,23 @@ class PyPath:
         for i, (t, val) in enumerate(self.lits):
             if isinstance(t, ast.Compare) and len(t.ops) == 1:
                 if (isinstance(t.ops[0], ast.Eq) and val) or (isinstance(t.ops[0], ast.NotEq) and not val):
-                    res.append((self._expand(t.left), self._expand(t.comparators[0]), i))
+                    res.append((ast.unparse(t.left) + " " + self._expand(t.left), ast.unparse(t.comparators[0]) + " " + self._expand(t.comparators[0]), i))
         return res
 
     def asserts_equal(self, marker):
         return any(marker in a or marker in b for a, b, _ in self._eq_literals())
+
+    def asserts_ge(self, a, b):
+        """a >= b is known on this path (a, b: markers of the operand texts)"""
+        for t, val in self.lits:
+            if not (isinstance(t, ast.Compare) and len(t.ops) == 1):
+                continue
+            l, r, op = ast.unparse(t.left) + " " + self._expand(t.left), ast.unparse(t.comparators[0]) + " " + self._expand(t.comparators[0]), t.ops[0]
+            if a in l and b in r and ((isinstance(op, ast.Lt) and not val) or (isinstance(op, ast.GtE) and val)):
+                return True
+            if b in l and a in r and ((isinstance(op, ast.Gt) and not val) or (isinstance(op, ast.LtE) and val)):
+                return True
+        return False
 
     def asserts_falsy(self, name):
         for t, val in self.lits:
@@ -794,7 +806,7 @@ class PathEnum:
 def rule_py_eof(out):
     rid = "PE1"
     out.rule(rid, "CodedInputStream: buffer reads are preceded by the refill test with at least the bytes consumed, _fill_buffer raises EOFError when it cannot "
-                  "provide min_count bytes, and every method that calls readinto on the underlying stream compares the count and can raise EOFError", 7)
+                  "provide min_count bytes, and every method that calls readinto on the underlying stream compares the count and can raise EOFError", 5)
     tree, rel = parse_py(out, "_binary.py")
     cls = classes(tree).get("CodedInputStream")
     if cls is None:
@@ -835,12 +847,27 @@ def rule_py_eof(out):
                   "no refill test with matching byte count before the buffer is indexed: stale bytes beyond the data are decoded at end of input")
     fb = ms.get("_fill_buffer")
     if fb is not None:
-        ok = False
-        for n in ast.walk(fb):
-            if isinstance(n, ast.If) and any(isinstance(b, ast.Raise) for b in n.body):
-                t = ast.unparse(n.test).replace(" ", "")
-                if "min_count" in t and "_last_read_count" in t and "<" in t:
-                    ok = True
+        # every path that returns normally either was not asked for a minimum, or has established
+        # _last_read_count >= min_count (whatever way the two tests are written or nested)
+        pe = PathEnum(tree)
+        ok_paths = [p for p in pe.paths(fb.body) if p.outcome != "raise"]
+        ok = bool(ok_paths) and not pe.overflow
+        def no_min(q):
+            return any((not val) and isinstance(t, ast.Compare) and len(t.ops) == 1 and "min_count" in ast.unparse(t) and "_last_read_count" not in ast.unparse(t)
+                       and isinstance(t.ops[0], (ast.Gt, ast.NotEq)) for t, val in q.lits)
+
+        def enough(q):
+            return q.asserts_ge("_last_read_count", "min_count")
+
+        for p in ok_paths:
+            good = no_min(p) or enough(p)
+            if not good:
+                # not (A and B): one of them is false; fine when either way gives one of the two facts
+                for t, val in p.lits:
+                    if not val and isinstance(t, ast.BoolOp) and isinstance(t.op, ast.And):
+                        if all(no_min(PyPath([(v, False)], "fall", p.env)) or enough(PyPath([(v, False)], "fall", p.env)) for v in t.values):
+                            good = True
+            ok = ok and good
         out.check(ok, rid, "CodedInputStream._fill_buffer/raises below min_count", pos(rel, fb), "raises EOFError when fewer than min_count bytes are available",
                   "_fill_buffer does not raise when it obtained fewer than min_count bytes")
 
